@@ -120,7 +120,7 @@ type c09Base struct {
 func c09World() *env.Env {
 	e := env.Static(env.Opts{})
 	mustRegister(e.W, stdSP(0), "appA")
-	u := randUser(rand.New(rand.NewSource(3)), "UMKc9x", false)
+	u := randUser(rand.New(rand.NewSource(3)), "U_MKc9x", false)
 	u.Username = "c09user"
 	e.W.AddUser(u)
 	return e
